@@ -1006,22 +1006,33 @@ func pointsToFreshCopies(f *ssa.Function, v ssa.Value, li *LockInfo) bool {
 	if m == nil {
 		return false
 	}
-	mk, ok := resolveVal(m).(*ssa.MakeMap)
-	if !ok {
-		return false
-	}
-	okAll, n := true, 0
-	if refs := mk.Referrers(); refs != nil {
-		for _, ref := range *refs {
-			if mu, ok := ref.(*ssa.MapUpdate); ok {
-				n++
-				if !isCopyAlloc(mu.Value) {
-					okAll = false
+	// the map is made here, or handed back by a same-package helper that makes it (c.snapshotMetadata())
+	var freshCopyMap func(mv ssa.Value, depth int) bool
+	freshCopyMap = func(mv ssa.Value, depth int) bool {
+		switch x := resolveVal(mv).(type) {
+		case *ssa.MakeMap:
+			okAll, n := true, 0
+			if refs := x.Referrers(); refs != nil {
+				for _, ref := range *refs {
+					if mu, ok := ref.(*ssa.MapUpdate); ok {
+						n++
+						if !isCopyAlloc(mu.Value) {
+							okAll = false
+						}
+					}
 				}
 			}
+			return okAll && n > 0
+		case *ssa.Call:
+			h := helperBody(x)
+			if h == nil || depth > 2 {
+				return false
+			}
+			return helperResultBounded(h, 0, func(_ *ssa.Return, v ssa.Value) bool { return freshCopyMap(v, depth+1) })
 		}
+		return false
 	}
-	return okAll && n > 0
+	return freshCopyMap(m, 0)
 }
 
 // isLoopBodyOf: fn is a closure that its parent hands to a call as an argument (the body of a range-over-func loop).
